@@ -509,7 +509,13 @@ fn string_strategy() -> impl Strategy<Value = StrCase> {
 		"close", "open", "high", "low", "hl2", "tp", "hlc3", "volume", "volumed_price", "sma-5", "ema-255", "wsma-0", "hma-1", "lin_reg-3", "linreg-3", "vidya-254", "swma-255", "true", "false", "0", "1", "254", "255", "256", "-1", "+5", "007", "1e3", "0.5", "NaN", "inf", "-inf", "nan", "1e400", "", " ", "-", "--", "sma-", "-5", "sma-5-5", "1.0.0", "0x10", "١٢",
 	];
 	let tok = proptest::sample::select(tokens).prop_map(|s| s.to_string());
-	let s = prop_oneof![4 => tok.clone(), 2 => (tok.clone(), tok, any::<bool>()).prop_map(|(a, b, sp)| if sp { format!("{a} {b}") } else { format!("{a}{b}") }), 2 => ".{0,24}", 1 => "[-+0-9.eE]{0,12}"];
+	let tok2 = tok.clone();
+	let s = prop_oneof![4 => tok.clone(), 2 => (tok.clone(), tok, any::<bool>()).prop_map(|(a, b, sp)| if sp { format!("{a} {b}") } else { format!("{a}{b}") }), 2 => ".{0,24}", 1 => "[-+0-9.eE]{0,12}",
+		// long texts, mostly of multi-byte characters, alone and behind a token: anything that cuts, pads or echoes
+		// the rejected value by byte positions meets a character boundary somewhere (seed S158)
+		1 => "\\PC{25,300}",
+		1 => (tok2.clone(), "[é€😀\u{301}a-c0-9 ]{20,200}").prop_map(|(a, b)| format!("{a}{b}")),
+		1 => (0usize..4, 1usize..140, tok2).prop_map(|(c, n, a)| format!("{a}{}", ["é", "€", "😀", "a\u{301}"][c].repeat(n)))];
 	(s, any::<u8>(), prop_oneof![4 => 0u8..16, 1 => Just(255u8)]).prop_map(|(s, indicator, key)| StrCase { s, indicator, key })
 }
 
